@@ -13,8 +13,8 @@ CLAIMED = {
    note="Not decided: control flow, scoping, calls, parser, composition of operations (see DESIGN.md). Assumed: go/ssa, tgvc encoder, solvers; integer division by zero is a panic site (not an error) and is listed in the evidence.",
    ref="DESIGN.md §4 C01"),
  "C02": dict(
-   text="VM side only: step contracts on the real dispatch loop (*VM).run prove for every opcode arm and all machine states that the VM consumes exactly the operand bytes the table parser.OpcodeOperands declares (read from source each run), moves the operand stack by the specified amount, and leaves frames consistent on call; an unknown opcode never continues.",
-   note="Compile-side clauses (operand validity at emit sites, stack balance per function, jump targets) are not covered yet. Bounds checks of run are path assumptions (mode panics-allowed).",
+   text="Encoding: MakeInstruction / ReadOperands against the operand-width table parser.OpcodeOperands (read from source on every run). VM side: step contracts on the real dispatch loop (*VM).run prove for every opcode arm and all machine states that the VM consumes exactly the operand bytes the table declares, moves the operand stack by the specified amount, leaves frames consistent on call, and never continues on an unknown opcode. Compile side: emit / changeOperand contracts, and for Compile, compileAssign and compileLogical the frame (bytes change only inside the current scope's instruction storage or fresh memory), the preservation of already emitted bytes and of outer scopes, so that every jump placeholder that is patched still holds the opcode that was emitted.",
+   note="Stack balance per function and jump-target validity are not decided; optimizeFunc, compileModule and the for / for-in statements have assumed contracts (listed in the evidence). Clauses tagged {C02!} (prefix / array / below families) are obligations of the thorough tier and assumptions of the quick tier. Bounds checks of run are path assumptions (mode panics-allowed).",
    ref="DESIGN.md §4 C02"),
  "C06": dict(
    text="String/bytes limits as a write-site inventory: every SSA store to String.Value / Bytes.Value in package tengo is an obligation len <= MaxStringLen / MaxBytesLen (field invariant assumed at loads, proved at stores); allocation accounting, the tracked-opcode table, the limit error and the frame limit are step contracts on (*VM).run.",
@@ -68,6 +68,10 @@ CLAIMED = {
    text="Scanner only: every function of parser/scanner.go (NewScanner, Scan, next, peek, error, skipWhitespace, scanIdentifier, scanDigits, scanNumber, scanEscape, scanRune, scanString, scanRawString, scanComment, findLineEnd, StripCR, switch2/3/4) is proved free of index, slice, nil and explicit-panic failures for all sources under one representation invariant (the current character occupies src[offset:readOffset], the file's extent equals the source), and Scan is proved to make progress: at a character, a call moves the offset forward or clears the pending-semicolon flag without moving back - the measure that bounds the parser's loops.",
    note="Parser and compiler totality (no panic for arbitrary token streams / syntax trees, error-count bailout, recursion depth) are not covered: Compile's safety obligations need a syntax-tree well-formedness invariant that is not written yet. Termination of the scanner's inner loops follows from next()'s progress clause by a meta-argument, not by a checked decreases clause. SourceFile.Position/AddLine and the error handler callback are frame-only (unverified bodies).",
    ref="DESIGN.md §4 C04"),
+ "C03": dict(
+   text="Three clauses of the dead-code pass, each proved on the real code for all inputs: the closure of pass 1 marks the target of every jump kind (JMP, JMPF, ANDJMP, ORJMP) as a jump destination; the closure of pass 3 re-targets every jump kind whose target is in the position map to the mapped offset (all four operand bytes); the source-map loop of pass 4 moves the entry of every kept instruction to the instruction's new offset.",
+   note="optimizeFunc as a whole (which instructions are removed, that removed code is unreachable, the appended return, agreement of the three passes through iterateInstructions) is NOT verified: its contract stays an assumption and only the clauses attached to its loop and to its closures are proved, under the closures' stated preconditions (jump instructions lie inside the new stream with one operand). Behavioural identity of the optimised program is not decided.",
+   ref="DESIGN.md 8.3"),
 }
 for v in CLAIMED.values():
     v["technique"] = TECH
@@ -113,7 +117,7 @@ def main():
               "technique": c["technique"],
             })
         else:
-            m["not_applicable"].append({"property_id": p, "reason": NA.get(p, "check not built yet (engine under construction); planned clauses in DESIGN.md §4")})
+            m["not_applicable"].append({"property_id": p, "reason": NA.get(p, "check not built; see DESIGN.md 8.3")})
     json.dump(m, open("/verif/MANIFEST.json","w"), indent=1)
     print("wrote MANIFEST.json:", len(m["checks"]), "checks,", len(m["not_applicable"]), "not applicable")
 
